@@ -16,7 +16,11 @@ class NegatedExpression(Node):
     """Expressions preceded by unary negation."""
 
     def parse(self, scope):
-        val, = self.process(self.tokens, scope)
+        # (a blank before the closing parenthesis is a token of its own)
+        val, = [
+            t for t in self.process(self.tokens, scope)
+            if not (isinstance(t, string_types) and not t.strip())
+        ]
         if isinstance(val, string_types):
             # the operand is already printed: negating a negative result
             # removes its sign instead of stacking a second one ('--2')
